@@ -7,7 +7,7 @@ SPEC = {
     "full_theorems": ["C19_inv_reachable", "C19_mutators_terminate", "C19_insert_terminates",
                       "C19_insert_or_replace_terminates", "C19_remove_key_terminates",
                       "C19_remove_value_terminates", "C19_reserve_terminates", "C19_value_terminates", "C19_index_nowrap", "C19_values_terminates",
-                      "C19_values_terminates_partial", "C19_index_chain", "MultiMap_refines",
+                      "C19_values_terminates_partial", "C19_index_chain", "MultiMap_refines", "MultiMap_refines_values",
                       "C19_every_history_runs"],
     "partial_theorems": ["MultiMap_refines_partial"],
     "counterexamples": ["C19_tombstone_counterexample"],
